@@ -19,14 +19,14 @@ import (
 func init() {
 	Registry["C15"] = RunC15
 	Metas["C15"] = Meta{
-		Rule: "episode = 2..5 struct types built at run time with reflect.StructOf (1..6 fields; kinds string/int/int64/uint8/bool/float64, pointers and slices; any subset of path/form/query/cookie/header/json tags; default; required) and requests placing values in subsets of the tagged sources; 2..4 tasks bind sequences of (type, request) pairs on ONE shared binder with yield points after the decoder-cache miss and before the cache store, so concurrent first uses of a type both miss, build and store in either order while hits of other types interleave; Bind / BindQuery / BindHeader / BindPath / BindForm (separate caches). Oracle: each result (bound value or error class) equals the result of a brand-new binder used alone (cold), and equals a small reference binder for the modelled field family. Non-trivial: >= 2 tasks were inside the cache-miss path of the same type at once, or a warm hit followed a cold miss of the same type in another task; distinct = abstract signature (type shapes, order of miss/store/hit events by task). Added later: defaults on pointer and slice fields, pointer/slice fields of narrow integer types with out-of-range texts (range errors in the reference model), and a scheduling point after every text decode (hook H5) so that binds interleave inside Decode, not only around the cache. Later still: a required tag in front of optional ones, odd integer texts, and - one episode in three - a scheduling point in front of every statement of the decoder construction (inserted yields; DESIGN 8).",
+		Rule: "episode = 2..5 struct types built at run time with reflect.StructOf (1..6 fields; kinds string/int/int64/uint8/bool/float64, pointers and slices; any subset of path/form/query/cookie/header/json tags; default; required) and requests placing values in subsets of the tagged sources; 2..4 tasks bind sequences of (type, request) pairs on ONE shared binder with yield points after the decoder-cache miss and before the cache store, so concurrent first uses of a type both miss, build and store in either order while hits of other types interleave; Bind / BindQuery / BindHeader / BindPath / BindForm (separate caches). Oracle: each result (bound value or error class) equals the result of a brand-new binder used alone (cold), and equals a small reference binder for the modelled field family. Non-trivial: >= 2 tasks were inside the cache-miss path of the same type at once, or a warm hit followed a cold miss of the same type in another task; distinct = abstract signature (type shapes, order of miss/store/hit events by task). Added later: defaults on pointer and slice fields, pointer/slice fields of narrow integer types with out-of-range texts (range errors in the reference model), and a scheduling point after every text decode (hook H5) so that binds interleave inside Decode, not only around the cache. Later still: required together with a default, a required tag in front of optional ones, odd integer texts, and - one episode in three - a scheduling point in front of every statement of the decoder construction (inserted yields; DESIGN 8).",
 		Real: []string{"binding.defaultBinder.bindTag/bindTagWithValidate/tagCache (sync.Map per tag kind)", "decoder.GetReqDecoder/getFieldDecoder, tag lookup, getters, base/slice/text decoders", "preBindBody (encoding/json instead of sonic in this build)"},
 		Stub: []string{"JSON library: encoding/json via the repository's stdjson build tag (sonic does not compile on the toolchain that provides testing/synctest)", "no network, no clock involved"},
 		Assumptions: []string{
 			"what is decided here is the history/schedule clause of the property (first use = later use = concurrent use); the priority rule itself is input-quantified and only cross-checked by a small reference model on the generated family",
 			"values are placed only in sources that the field names in its tags (the form getter's documented fallback to the query string is not part of the model)",
 		},
-		RequiredProbes: []string{"yield:bindTag.miss", "yield:bindTag.store", "yield:bind.text", "concurrent-first-use", "warm-hit", "cold-miss", "required-missing", "default-used", "json-source", "path-source", "untagged-field", "empty-value"},
+		RequiredProbes: []string{"yield:bindTag.miss", "yield:bindTag.store", "yield:bind.text", "concurrent-first-use", "warm-hit", "cold-miss", "required-missing", "default-used", "json-source", "path-source", "untagged-field", "empty-value", "required-with-default"},
 	}
 }
 
@@ -92,7 +92,12 @@ func c15GenType(tp *core.Tape, ti int) *c15type {
 		if tp.Chance("default", 1, 5) {
 			f.def = []string{"dflt", "7", "7", "7", "true", "1.5", "7", "['d1','d2']", "7", "[7]"}[f.kind]
 		}
-		f.required = f.def == "" && tp.Chance("required", 1, 6)
+		if f.def == "" {
+			f.required = tp.Chance("required", 1, 6)
+		} else if tp.Chance("reqdef", 1, 3) {
+			// required together with a default: the value still has to be present ("a missing required value is an error")
+			f.required = true
+		}
 		noname := tp.Chance("noname", 1, 6)
 		if noname {
 			f.key = f.name // a source tag without a name: the field's own name is the key
@@ -495,6 +500,9 @@ func RunC15(ep *core.Episode) {
 				}
 			}
 			for _, f := range jb.t.fields {
+				if f.def != "" && f.required {
+					ep.Probe("required-with-default")
+				}
 				if f.def != "" {
 					ep.Probe("default-used")
 				}
